@@ -50,6 +50,13 @@ Theorem C20_gate2_color5 : forall g, In g logical_gates2 ->
   PreservesStab2 color5 (transversal2 color5 g) /\ Induces2 color5 (transversal2 color5 g) g.
 Proof. exact gate2_color5. Qed.
 
+(* every gate that has an entry in the expansion table (also beyond the gate set of the property) is a correct
+   logical gate; EntryOk is defined in Proofs/EncoderProofs.v as the one-block or the two-block statement above *)
+Theorem C20_table_entries_steane : forall g, In g (map fst (e_exps steane)) -> EntryOk steane g.
+Proof. exact entries_steane. Qed.
+Theorem C20_table_entries_color5 : forall g, In g (map fst (e_exps color5)) -> EntryOk color5 g.
+Proof. exact entries_color5. Qed.
+
 (* ---- transversal measurement and the rewritten annotations of one block *)
 Theorem C20_meas_steane : MeasCorrect steane.
 Proof. exact meas_steane. Qed.
@@ -64,12 +71,12 @@ Theorem C20_index_blocks_disjoint : forall n t off t' off', 0 <= off < n -> 0 <=
 Proof. exact bt_index_inj. Qed.
 Theorem C20_index_gate_1q : forall e g meta qs,
   String.eqb g "DETECTOR" = false -> String.eqb g "OBSERVABLE_INCLUDE" = false ->
-  transversal e [mkI g meta true (map (fun q => [q]) qs)]
+  transversal e [mkI g meta true (map (fun q => [q]) qs) []]
   = map (fun nm => mkO nm meta (map OQ (flat_map (block (e_n e)) qs))) (gate_seq (e_exps e) g).
 Proof. exact transversal_1q. Qed.
 Theorem C20_index_gate_2q : forall e g meta pairs,
   String.eqb g "DETECTOR" = false -> String.eqb g "OBSERVABLE_INCLUDE" = false ->
-  transversal e [mkI g meta true (map (fun ab => [fst ab; snd ab]) pairs)]
+  transversal e [mkI g meta true (map (fun ab => [fst ab; snd ab]) pairs) []]
   = map (fun nm => mkO nm meta (map OQ (pair_targets (e_n e) pairs))) (gate_seq (e_exps e) g).
 Proof. exact transversal_2q. Qed.
 Theorem C20_index_encoding : forall e groups blocks,
@@ -119,13 +126,13 @@ Proof. exact (program_unitary color5 gate1_color5 gate2_color5). Qed.
 (* the table's expansions are needed: bare transversal S on the Steane code is not the logical S *)
 Theorem C20_expansion_needed :
   induces1_b steane (transform (e_n steane) (trans_offsets steane) [] (e_stabs steane) (e_obs steane)
-                               [mkI "S" 0 true [[0]]]) "S" = false.
+                               [mkI "S" 0 true [[0]] []]) "S" = false.
 Proof. exact steane_bare_S_is_not_logical_S. Qed.
 
 (* ---- non-vacuity *)
 Example C20_gate_prog_inhabited :
-  Forall gate_instr [mkI "H" 0 true (map (fun q => [q]) [0; 2]); mkI "S" 1 true (map (fun q => [q]) [1]);
-                     mkI "CX" 2 true (map (fun ab => [fst ab; snd ab]) [(0, 1)])].
+  Forall gate_instr [mkI "H" 0 true (map (fun q => [q]) [0; 2]) []; mkI "S" 1 true (map (fun q => [q]) [1]) [];
+                     mkI "CX" 2 true (map (fun ab => [fst ab; snd ab]) [(0, 1)]) []].
 Proof. exact gate_prog_example. Qed.
 (* M 0 1 2; DETECTOR rec[-1]; DETECTOR rec[-3] rec[-2]; OBSERVABLE_INCLUDE(..) rec[-2] on the Steane code *)
 Example C20_tail_inhabited :
